@@ -71,9 +71,9 @@ structure Site where
   len : Nat
 deriving DecidableEq, Repr
 
-/-- which dispatch site: object processor on the model root (the only object with
-`_tx_filename`), object processor on any other object, match processor -/
-inductive PKind | objRoot | objInner | mtch
+/-- which dispatch site: object processor (the processed value is a model object)
+or match processor (the processed value is a string / converted primitive) -/
+inductive PKind | obj | mtch
 deriving DecidableEq, Repr
 
 /-- `get_location(model_obj)` -/
@@ -82,7 +82,7 @@ def getLocation (s : Site) : Given := ⟨s.file, s.line, s.col, some s.len⟩
 /-- the keyword arguments at the dispatch site -/
 def given : PKind → Site → Given
   | .mtch, s => ⟨s.file, s.line, s.col, none⟩
-  | _, s => getLocation s
+  | .obj, s => getLocation s
 
 def Given.toLoc (g : Given) : ErrLoc := ⟨g.filename, some g.line, some g.col, g.nchar⟩
 
@@ -91,9 +91,10 @@ def wrap (k : PKind) (s : Site) : Raised → Raised
   | .textx l => .textx l                       -- `if isinstance(e, TextXError): raise`
   | .other =>
     match k with
-    -- `hasattr(obj, "_tx_position") and hasattr(obj, "_tx_filename")`
-    | .objRoot => .textx (getLocation s).toLoc   -- `TextXError(str(e), **get_location(obj))`
-    | _ => .textx ErrLoc.empty                    -- `TextXError(str(e))`
+    -- `hasattr(obj, "_tx_position") and hasattr(obj, "_tx_filename")`: true for every model
+    -- object (`_tx_filename` is also a class attribute of every textX class), false for match values
+    | .obj => .textx (getLocation s).toLoc     -- `TextXError(str(e), **get_location(obj))`
+    | .mtch => .textx ErrLoc.empty              -- `TextXError(str(e))`
 
 /-- what leaves `metamodel.process` (and with it the load) when the processor —
 wrapped or not — raises `r` on the text `s` -/
@@ -105,6 +106,6 @@ def outcomePinned (k : PKind) (s : Site) (wrapped : Bool) (r : Raised) : Raised 
 
 /-- the located error the property asks for -/
 def expected (k : PKind) (s : Site) : ErrLoc :=
-  ⟨s.file, some s.line, some s.col, match k with | .mtch => none | _ => some s.len⟩
+  ⟨s.file, some s.line, some s.col, match k with | .mtch => none | .obj => some s.len⟩
 
 end Proc
